@@ -13,5 +13,5 @@ Extraction "lospan_model.ml"
   decode_bounded layout_payload layout_fields
   decode encode mk_slice new_phy spec_decode spec_cmds spec_set s_adr s_adrackreq s_ack s_fpending s_is_data s_uplink cmd_payload_dec
   rx_event submit encode_message encode_join_accept encode_join_request decode_join_accept nwkskey_from_nonces appskey_from_nonces
-  dt_by_eui dt_by_devaddr dt_get dt_put key_empty
+  dt_by_eui dt_by_devaddr dt_get dt_put key_empty max_payload
   ref_uplink ref_on_downlink ref_join_request ref_on_join_accept ref_mic ref_crypt mic4.
